@@ -292,7 +292,7 @@ func (s *scope) Close() error {
 	s.disposablesMu.Unlock()
 
 	for i := len(disposables) - 1; i >= 0; i-- {
-		if err := disposables[i].Close(); err != nil {
+		if err := closeDisposable(disposables[i]); err != nil {
 			errs = append(errs, fmt.Errorf("failed to dispose scoped instance: %w", err))
 		}
 	}
@@ -403,6 +403,18 @@ func (s *scope) cacheInstance(descriptor *Descriptor, key instanceKey, instance 
 		}
 		s.instancesMu.Unlock()
 	}
+}
+
+// closeDisposable closes one instance. A panic in its Close is reported like an error it returned,
+// so that the remaining instances are still disposed and the owner is still released.
+func closeDisposable(d Disposable) (err error) {
+	defer func() {
+		if r := recover(); r != nil {
+			err = fmt.Errorf("panic while disposing: %v", r)
+		}
+	}()
+
+	return d.Close()
 }
 
 // closeLate disposes an instance that no Close of its owner will reach any more.
